@@ -743,8 +743,3 @@ Theorem fixed_F13c :
   /\ wf_sig sig_disagree = true /\ proto_kw sig_disagree = k_async_def /\ mock_gen sig_disagree = false.
 Proof. repeat split; vm_compute; reflexivity. Qed.
 
-(* F13e — guard witness (the defect itself lives in the type resolver, which is not modelled: the pipeline
-   replay corpus/C13/F13e.json shows client/Protocol `q: String2 | None` against mock `q: str | None`) *)
-Theorem guard_F13e_witness :
-  guard_F13e [[115;116;114;105;110;103]] = false /\ guard_F13e [[73;116;101;109]; [85;115;101;114;115]] = true.
-Proof. split; reflexivity. Qed.
